@@ -54,6 +54,48 @@ theorem stripe_receptive (k s d top skB H y0 y1 w0 : Int)
     generalize (y1 - w0) * s = Y1 at *
     omega
 
+/-- **`box_covers`**: the IFM box handed to address generation contains every row the hardware touches
+    (it may over-read: e.g. conv3x3/s3 SAME over 37 rows, stripe `[4,7)`: rows `[11,20)` are read, the box is `[11,22)`). -/
+theorem box_covers (k s d top skB H y0 y1 w0 : Int)
+    (hs : 1 ≤ s) (hd : 1 ≤ d)
+    (h0 : 0 ≤ y0 - w0) (h01 : y0 < y1) (h1 : y1 - w0 ≤ H)
+    (hT : 0 ≤ top) (hsk : dilated k d - s ≤ top + skB) :
+    let r := transformH y0 y1 w0 none (some (s, top, skB)) H 1 (dilated k d)
+    BoxCovers { k := k, s := s, d := d, top := top, H := H, off := 0, up := 1, mode := .none }
+      { y0 := y0 - w0, h := y1 - y0, a := r.a, b := r.b, pt := r.pt, pb := r.pb } :=
+  (stripe_receptive k s d top skB H y0 y1 w0 hs hd h0 h01 h1 hT hsk).2.2
+
+/-- **The skirt hypothesis holds for every skirt `calc_padding_and_skirt` produces** (all padding modes):
+    `skirt_top + skirt_bottom = needed_total_padding ≥ k_dil - stride`, on both axes; and
+    `needed_total_padding` is the reference (TensorFlow Lite) total SAME padding, of which SAME takes `total/2` on top. -/
+theorem skirt_hypothesis (mode : PadMode) (kw kh sx sy H W : Int) (ex : Int × Int × Nat × Nat) (hsy : 1 ≤ sy) (hsx : 1 ≤ sx) :
+    let ps := calcPaddingAndSkirt mode kw kh sx sy H W ex
+    ps.2.top = ps.1.top ∧ ps.2.left = ps.1.left ∧
+    kh - sy ≤ ps.2.top + ps.2.bottom ∧ kw - sx ≤ ps.2.left + ps.2.right ∧
+    ps.2.top + ps.2.bottom = sameTotal H sy kh ∧
+    (mode = .same → ps.1.top = sameTotal H sy kh / 2 ∧ ps.1.bottom = sameTotal H sy kh - ps.1.top) := by
+  intro ps
+  have h1 := neededTotalPadding_ge H sy kh hsy
+  have h2 := neededTotalPadding_ge W sx kw hsx
+  have h3 := neededTotalPadding_eq_sameTotal H sy kh hsy
+  simp only [ps, calcPaddingAndSkirt]
+  refine ⟨trivial, trivial, by omega, by omega, by omega, ?_⟩
+  intro hm
+  subst hm
+  simp only
+  omega
+
+/-- a SAME operator executed as one stripe gets the operator's explicit padding from `create_padding`;
+    its bottom padding is exactly what the receptive field of the last output row needs:
+    `bottom = max((out-1)*s - top + k_dil - H, 0)` -/
+theorem same_padding_whole_op (kh sy H : Int) (hsy : 1 ≤ sy) :
+    let tot := sameTotal H sy kh
+    tot - tot / 2 = max ((sameOut H sy - 1) * sy - tot / 2 + kh - H) 0 := by
+  intro tot
+  simp only [tot, sameTotal]
+  generalize (sameOut H sy - 1) * sy = T
+  omega
+
 /-- the padding `create_padding` hands to the NPU operation for the rows is the stripe's own
     `pad_top`/`pad_bottom`, except for an operator executed as one stripe, which gets the operator's
     explicit padding -/
@@ -323,6 +365,26 @@ theorem box_covers_nearest_partial (k top skB H y0 y1 : Int)
   simp only [hwSrc, implicitExtent, dilated, o, st, r, transformH, Int.mul_one, Int.sub_zero, Int.add_zero] at *
   repeat' split
   all_goals (intro hrow; first | (injection hrow with hrow; omega) | cases hrow)
+
+/-- **A fused slice read is scaled by the stride** (why the theorems are stated for operators without a read
+    offset): STRIDED_SLICE begin w=5 of 32 columns fused into a 1x1 stride-2 convolution (12 output columns):
+    the box starts at column (0+5)*2 = 10 and output column 0 reads stored column 10, the operator reads
+    column 5 (slice column 0). -/
+theorem read_offset_stride_witness :
+    transformW 0 12 0 (some (5, 23)) (some (2, 0, 0)) 32 1 = (10, 28) ∧
+    hwSrc ⟨1, 2, 1, 0, 23, 5, 1, .none⟩ ⟨0, 12, 10, 28, 0, 0⟩ 0 0 = .row 10 ∧
+    refSrc ⟨1, 2, 1, 0, 23, 5, 1, .none⟩ 0 0 = .row 5 := by
+  decide +kernel
+
+/-- **Rows of a fused slice read are clamped to the tensor, not to the slice**: STRIDED_SLICE begin h=3
+    (19 of 24 rows) fused into a 5x5 SAME convolution executed as one stripe: box rows `[1, 24)`, explicit
+    `pad_top = 2`; tap 2 of output row 0 reads stored row 1, the operator reads slice row 0 = stored row 3. -/
+theorem read_offset_rows_witness :
+    let r := transformH 0 19 0 (some 3) (some (1, 2, 2)) 24 1 5
+    (r.a, r.b) = (1, 24) ∧
+    hwSrc ⟨5, 1, 1, 2, 19, 3, 1, .none⟩ ⟨0, 19, r.a, r.b, 2, 2⟩ 0 2 = .row 1 ∧
+    refSrc ⟨5, 1, 1, 2, 19, 3, 1, .none⟩ 0 2 = .row 3 := by
+  decide +kernel
 
 /-- an odd stripe start breaks the receptive field under upscaling (why the `_partial` theorems need
     `y0 % 2 = 0`): 2x nearest-neighbour resize (1x1 kernel) of 2 rows, stripe `[1, 4)`: the box starts at
